@@ -124,15 +124,32 @@ theorem visitProd_of_not_mem (key : Key → Key) (f : Key → K) (cs : List Key)
 
 /-! ### `apply_efficiencies` -/
 
-theorem applyEff_unapply {d : Dims} (F : Fan K) (eff : Tab K) (hne : ∀ x, eff.get x ≠ 0) (k : Key) :
+theorem mem_dets {d : Dims} {x : Int × Int} : x ∈ d.dets ↔ (0 ≤ x.1 ∧ x.1 ≤ d.R - 1) ∧ (0 ≤ x.2 ∧ x.2 ≤ d.N - 1) := by
+  obtain ⟨ra, a⟩ := x
+  unfold Dims.dets
+  simp only [List.mem_flatMap, List.mem_map, mem_intRange, Prod.mk.injEq]
+  constructor
+  · rintro ⟨ra', h1, a', h2, rfl, rfl⟩
+    exact ⟨h1, h2⟩
+  · rintro ⟨h1, h2⟩
+    exact ⟨ra, h1, a, h2, rfl, rfl⟩
+
+/-- the efficiency factor of a loop index tuple is non-zero when the efficiencies of all detectors are -/
+theorem effFactor_ne_zero {d : Dims} (wf : d.WF) (eff : Tab K) (hne : ∀ x ∈ d.dets, eff.get x ≠ 0) {c : Key} (hc : c ∈ d.canon) :
+    effFactor d eff c ≠ 0 := by
+  obtain ⟨⟨h1, h2, h3, h4, _, _, h7, h8, h9, h10, _⟩, _⟩ := inWindow_of_mem_canon wf hc
+  unfold effFactor
+  exact mul_ne_zero (hne _ (mem_dets.2 ⟨⟨h1, by omega⟩, ⟨h7, by omega⟩⟩)) (hne _ (mem_dets.2 ⟨⟨h3, by omega⟩, ⟨h9, by omega⟩⟩))
+
+theorem applyEff_unapply {d : Dims} (wf : d.WF) (F : Fan K) (eff : Tab K) (hne : ∀ x ∈ d.dets, eff.get x ≠ 0) (k : Key) :
     (applyEff d (applyEff d F eff true) eff false).get k = F.get k := by
   unfold applyEff
-  exact factorFold_unapply_apply _ _ _ _ (fun c _ => mul_ne_zero (hne _) (hne _)) k
+  exact factorFold_unapply_apply _ _ _ _ (fun c hc => effFactor_ne_zero wf eff hne hc) k
 
-theorem applyEff_apply_of_unapply {d : Dims} (F : Fan K) (eff : Tab K) (hne : ∀ x, eff.get x ≠ 0) (k : Key) :
+theorem applyEff_apply_of_unapply {d : Dims} (wf : d.WF) (F : Fan K) (eff : Tab K) (hne : ∀ x ∈ d.dets, eff.get x ≠ 0) (k : Key) :
     (applyEff d (applyEff d F eff false) eff true).get k = F.get k := by
   unfold applyEff
-  exact factorFold_apply_unapply _ _ _ _ (fun c _ => mul_ne_zero (hne _) (hne _)) k
+  exact factorFold_apply_unapply _ _ _ _ (fun c hc => effFactor_ne_zero wf eff hne hc) k
 
 /-- array-element form: the element addressed by the loop indices `c` is multiplied by `eff[ra][a] * eff[rb][b % N]` -/
 theorem applyEff_get_key {d : Dims} (wf : d.WF) (F : Fan K) (eff : Tab K) {c : Key} (hc : c ∈ d.canon) :
@@ -166,10 +183,10 @@ theorem unapplyEff_at {d : Dims} (wf : d.WF) (F : Fan K) (eff : Tab K) {ra a rb 
 
 /-! ### `apply_block_norm`, `apply_geo_norm` -/
 
-theorem applyBlock_unapply {d bd : Dims} (F blk : Fan K) (hne : ∀ k, blk.get k ≠ 0) (k : Key) :
+theorem applyBlock_unapply {d bd : Dims} (F blk : Fan K) (hne : ∀ c ∈ d.canon, blockFactor d bd blk c ≠ 0) (k : Key) :
     (applyBlock d bd (applyBlock d bd F blk true) blk false).get k = F.get k := by
   unfold applyBlock
-  exact factorFold_unapply_apply _ _ _ _ (fun c _ => by unfold blockFactor Fan.at; exact hne _) k
+  exact factorFold_unapply_apply _ _ _ _ hne k
 
 theorem applyBlock_get_key {d bd : Dims} (wf : d.WF) (F blk : Fan K) {c : Key} (hc : c ∈ d.canon) :
     (applyBlock d bd F blk true).get (d.key c) = F.get (d.key c) * blockFactor d bd blk c := by
